@@ -117,6 +117,9 @@ def cluster_check(run, case, toks):
 
 
 def check(run):
+    import genlib
+    genlib.validate_eam_writer(run, "tabeam_fs", n=run.n(10, 100))
+    genlib.validate_eam_writer(run, "setfl_fs", n=run.n(10, 100))
     run.rule = ("asymmetric Finnis-Sinclair tracer models (1..4 species, every ordered pair its own function id, random undeclared combinations, "
                 "shuffled declaration order of A->B and embedding entries, species without an embedding entry) x formats setfl_fs / DL_POLY_EAM_fs / "
                 "excel_eam_fs x routes (writer function, tabulation class, potable Configuration, potable entry point); "
